@@ -64,7 +64,7 @@ struct Pending {
 	MState before;
 	uint32_t iv_before[3];
 	int step_kind = -1, step_mut = -1;
-	bool success_seen = false, alloc_failure_seen = false;
+	bool success_seen = false, alloc_failure_seen = false, chained = false;
 	time_t t_query = 0;
 	wire::Bytes offender;
 };
@@ -111,7 +111,7 @@ struct Engine {
 	Pending pend;
 	std::vector<std::array<uint32_t, 3>> iv_allowed;
 	IdSet foreign;
-	bool weak = false, may_downgrade = false, ts_desync = false, notify_recursion = false;
+	bool weak = false, hostile = false, may_downgrade = false, ts_desync = false, notify_recursion = false;
 	// established-wait bookkeeping (C17 c)
 	bool in_est_wait = false, est_first_recv = true, expect_query_next = false;
 	size_t notify_pending_bytes = 0;
@@ -152,8 +152,17 @@ static std::string fnv_str(const std::string &s)
 
 // ------------------------------------------------------------------------------------------------
 // failure recording
-static void fail(const char *prop, const std::string &sig, const std::string &what)
+// Records a failure.  Returns true if it ends the run (it is charged to the property under test, or no focus is set).
+// A failure charged to ANOTHER property is only noted (that property's own check reports it): the caller then adopts
+// what it observed into the model and the conversation goes on, so that consequences for the property under test
+// (a wrong next query, data that never expires, a client that never re-converges ...) are still seen.
+static bool fail(const char *prop, const std::string &sig, const std::string &what)
 {
+	if (!E->opt.focus.empty() && E->opt.focus != prop) {
+		E->rep.cls[std::string("failure-charged-to-another-property(") + prop + ")"]++;
+		if (E->rep.first_foreign.empty()) E->rep.first_foreign = std::string(prop) + ":" + sig + ": " + what;
+		return false;
+	}
 	if (E->rep.ok) {
 		E->rep.ok = false;
 		E->rep.prop = prop;
@@ -161,6 +170,12 @@ static void fail(const char *prop, const std::string &sig, const std::string &wh
 		E->rep.what = what;
 	}
 	E->finish = true;
+	return true;
+}
+static void model_off() // no adoption possible: switch the data model off for the rest of the conversation
+{
+	E->weak = true;
+	E->ts_desync = true;
 }
 static void TR(const std::string &s)
 {
